@@ -785,6 +785,12 @@ class RestartSequence:
     def post_served_only_in_operation(self, old):
         return fsm_state(old.self) == SupvisorsStates.OPERATION
 
+    def post_served_only_without_jobs_anywhere(self, old):
+        """documented refusal (docstring: 'BAD_SUPVISORS_STATE if ... starting / stopping jobs are in progress'): the
+        request is served only when NO Supvisors instance - not just the local one - reports jobs in progress"""
+        sms = old.self.supvisors.state_modes.instance_state_modes
+        return forall(sms, lambda i: not sms[i].starting_jobs and not sms[i].stopping_jobs)
+
     def post_sequence_requested(self):
         return (count_effects('starter.start_applications') == 1
                 and no_effect('stopper.stop_application', 'stopper.stop_process', 'fsm.set_state', 'fsm.next'))
